@@ -34,6 +34,8 @@ CLASSES = [
 LOGIC = Logic(funcs={"Exists": (["Val[Path]"], "bool"),
                      "IsUnder": (["Val[Path]", "Val[Path]"], "bool"),
                      "RelTo": (["Val[Path]", "Val[Path]"], "Val[Path]"),
+                     # Resolved(p): p is absolute, without '..' components and without symlinks (what Path.resolve returns)
+                     "Resolved": (["Val[Path]"], "bool"),
                      "RawName": (["RawTask"], "str")},
               globals={"g_abort_pending": "bool"})
 
@@ -74,13 +76,13 @@ CONTRACTS = [
 
     # ------------------------------------------------------------------ include()
     Contract("ext::Path.joinpath", params={"other": "str"}, returns="Val[Path]", ensures=["result == Path_join(self, other)"], trusted_reason="pathlib joinpath"),
-    Contract("ext::Path.resolve", returns="Val[Path]", varargs=True, ensures=["Exists(result)"],
+    Contract("ext::Path.resolve", returns="Val[Path]", varargs=True, ensures=["Exists(result)", "Resolved(result)"],
              raises={"FileNotFoundError": []}, trusted_reason="pathlib resolve(strict=True): an existing path or FileNotFoundError"),
     Contract("ext::PyValue.__contains__", params={"key": "str"}, returns="bool", trusted_reason="dict membership of the include cache / scope"),
     Contract("ext::PyValue.__getitem__", params={"key": "str"}, returns="PyValue", trusted_reason="dict lookup in the include cache / scope"),
     Contract("ext::PyValue.__setitem__", params={"key": "str", "value": "PyValue"}, trusted_reason="dict store in the scope"),
 
-    Contract(F + "::TaskLoader._run_include", params={"candidate_path": "str"}, props=["C15", "C16"],
+    Contract(F + "::TaskLoader._run_include", params={"candidate_path": "str"}, props=["C15", "C16", "C17"],
              locals={"scope": "PyValue"},
              requires=[C("called_while_parsing", "self._current_cond_file_path is not None and self._curr_exec_scope is not None"),
                        C("current_cond_file_inside_project", "IsUnder(some(self._current_cond_file_path), self._project_root)"),
@@ -95,6 +97,15 @@ CONTRACTS = [
                      "ConductorError+": [],
                      # open()/read() failures are turned into TaskParseError by parse_cond_file (the caller of the COND code)
                      "OSError+": [], "Exception+": []},
+             ghost=[
+                 # C17: a project-rooted include is anchored at the project root, a relative one at the including file's directory
+                 Ghost("assert include_path == ite(candidate_path.startswith('//'), Path_join(self._project_root, candidate_path[2:]),"
+                       " Path_join(Path_parent(some(self._current_cond_file_path)), candidate_path)), 'include_path_anchored_at_project_root_or_including_directory'",
+                       before="include_path = include_path.resolve(strict=True)"),
+                 # C15: what is executed (or served from the cache) is the real (resolved) file and lies inside the project
+                 Ghost("assert Resolved(include_path) and IsUnder(include_path, self._project_root), 'included_file_is_the_resolved_file_and_lies_inside_the_project'",
+                       before="if str(include_path) in self._include_cache:..."),
+             ],
              notes="ConductorAbort raised inside exec() must leave as ConductorAbort (C16): the `except ConductorError: raise` clause"),
 
     # ------------------------------------------------------------------ the task-constructor shim (unique names per file)
